@@ -352,6 +352,71 @@ def run_interleave(sh, fa, data_a, exp_a, js, js_b, node_b, recs_b, steps):
             return
 
 
+def interleaved_writers(sh, fa, rng, case):
+    """Two container writers alive at once (records routed to one file or the other, a writer()
+    whose record iterable itself writes a side file): each file must be byte for byte the file
+    the same records give when it is written on its own."""
+    from fastavro.write import Writer
+
+    js, recs = case["schema"], case["records"]
+    if len(recs) < 2:
+        return
+    cfgs = [(rng.choice(CODECS), rng.choice([1, 10**6, 10**6])) for _ in range(2)]
+    parts = [[], []]
+    route = [rng.randrange(2) for _ in recs]
+    for r, k in zip(recs, route):
+        parts[k].append(r)
+    info = {"schema": js, "records": recs, "route": route, "cfgs": cfgs, "interleaved_writers": True}
+
+    def alone(k):
+        fo = io.BytesIO()
+        w = Writer(fo, copy.deepcopy(js), codec=cfgs[k][0], sync_interval=cfgs[k][1], sync_marker=bytes([k + 1]) * 16)
+        for r in parts[k]:
+            w.write(r)
+        w.flush()
+        return fo.getvalue()
+
+    st, want = guard(lambda: [alone(0), alone(1)])
+    if st == "exc":
+        sh.count("interleaved_writers_not_writable_alone")  # the single-file path judges that
+        return
+
+    def together():
+        fos = [io.BytesIO(), io.BytesIO()]
+        ws = [Writer(fos[k], copy.deepcopy(js), codec=cfgs[k][0], sync_interval=cfgs[k][1], sync_marker=bytes([k + 1]) * 16) for k in range(2)]
+        for r, k in zip(recs, route):
+            ws[k].write(r)
+        for w in ws:
+            w.flush()
+        return [f.getvalue() for f in fos]
+
+    st, got = guard(together)
+    sh.count("interleaved_writer_pairs")
+    if st == "exc" or got != want:
+        sh.violation("interleaved-writers-differ", "two writers alive at once: %s" % (exc_name(got) if st == "exc" else
+                     "file sizes %s, written alone %s" % ([len(x) for x in got], [len(x) for x in want])), info)
+        return
+
+    # writer() whose iterable writes a side file for every record it hands over
+    def nested():
+        sides = []
+
+        def feed():
+            for r in parts[0]:
+                side = io.BytesIO()
+                fa.writer(side, copy.deepcopy(js), [r], codec=cfgs[1][0], sync_marker=b"\x09" * 16)
+                sides.append(side.getvalue())
+                yield r
+
+        fo = io.BytesIO()
+        fa.writer(fo, copy.deepcopy(js), feed(), codec=cfgs[0][0], sync_interval=cfgs[0][1], sync_marker=b"\x01" * 16)
+        return fo.getvalue(), sides
+
+    st, got = guard(nested)
+    if st == "exc" or got[0] != want[0]:
+        sh.violation("interleaved-writers-differ", "writer() whose record iterable calls writer(): %s" % (exc_name(got) if st == "exc" else "main file differs from the one written alone"), info)
+
+
 def encoded_len(node, d):
     try:
         return len(RB.encode(node, RC.from_datum(node, d)))
@@ -465,6 +530,8 @@ def run_shard(spec):
         sh.run_case(one_case, sh, fa, rng, case, scratch, "c%d" % i)
         if i % 4 == 0:
             sh.run_case(interleaved, sh, fa, rng, case)
+        if i % 4 == 1:
+            sh.run_case(interleaved_writers, sh, fa, rng, case)
         if i % 60 == 1:
             sh.sample({"schema": case["schema"], "n_records": len(recs), "first": printable(recs[:1], 200)})
     return sh.result()
